@@ -523,4 +523,811 @@ theorem getFreeAncilla_ok {B : String → Prop} {a : Nat} {s s' : CState}
           hg.anc_nodup, hg.anc_named⟩ rfl rfl rfl, hg.free_lt a hcf⟩
         exact fun x hx => hg.free_lt x (List.mem_of_mem_erase hx)
 
+/-! ### marks, expression cache, map_qubit -/
+
+theorem markAncilla_ok {B : String → Prop} {w : Nat} {u : Unit} {s s' : CState}
+    (h : (markAncilla w).run s = .ok (u, s')) (hg : Good s) : Step B s s' := by
+  unfold markAncilla at h
+  dsimp only at h
+  obtain ⟨qc, s1, hq, h⟩ := run_bind_ok.mp h
+  obtain ⟨rfl, rfl⟩ := getQC_run hq
+  have fin : ∀ {s2 s3 : CState} {u : Unit}, Step B s1 s2 →
+      (modQC fun qc => { qc with marked := setIns qc.marked w }).run s2 = .ok (u, s3) →
+      w ∈ s1.qc.anc → Step B s1 s3 := by
+    intro s2 s3 u hst hm hc
+    have hw : w < s1.qc.numQubits := hg.anc_lt w hc
+    have := modQC_run hm; subst this
+    have hg2 := hst.good
+    refine hst.trans (Step.of_same ⟨hg2.gates_ok, hg2.comp_ok, hg2.qmap_lt, hg2.expq_lt, hg2.anc_lt,
+      hg2.free_lt, ?_, hg2.anc_nodup, hg2.anc_named⟩ rfl rfl rfl)
+    intro x hx
+    rcases mem_setIns hx with hx | rfl
+    · exact hg2.marked_lt x hx
+    · exact Nat.lt_of_lt_of_le hw hst.nq_le
+  split at h
+  · next hc =>
+    have hc' : w ∈ s1.qc.anc := by simpa using hc
+    split at h
+    · obtain ⟨u1, s2, hev, hm⟩ := run_bind_ok.mp h
+      exact fin (event_ok hev hg) hm hc'
+    · exact fin (Step.refl hg) h hc'
+  · obtain ⟨_, rfl⟩ := run_pure_ok.mp h; exact Step.refl hg
+
+theorem markAll_ok {B : String → Prop} : ∀ (ws : List Nat) {u : Unit} {s s' : CState},
+    (markAll ws).run s = .ok (u, s') → Good s → Step B s s'
+  | [], u, s, s', h, hg => by
+    unfold markAll at h
+    obtain ⟨_, rfl⟩ := run_pure_ok.mp h; exact Step.refl hg
+  | w :: ws, u, s, s', h, hg => by
+    unfold markAll at h
+    simp only [run_bind_ok] at h
+    obtain ⟨u1, s1, h1, h2⟩ := h
+    have st1 : Step B s s1 := markAncilla_ok h1 hg
+    exact st1.trans (markAll_ok ws h2 st1.good)
+
+theorem expqRemove_ok {B : String → Prop} {qs : List Nat} {u : Unit} {s s' : CState}
+    (h : (expqRemove qs).run s = .ok (u, s')) (hg : Good s) : Step B s s' := by
+  unfold expqRemove at h
+  have := run_modify_ok.mp h; subst this
+  refine Step.of_same ⟨hg.gates_ok, hg.comp_ok, hg.qmap_lt, ?_, hg.anc_lt, hg.free_lt, hg.marked_lt,
+    hg.anc_nodup, hg.anc_named⟩ rfl rfl rfl
+  exact fun p hp => hg.expq_lt p (List.mem_filter.mp hp).1
+
+theorem expqSet_ok {B : String → Prop} {e : BExp} {q : Nat} {u : Unit} {s s' : CState}
+    (h : (expqSet e q).run s = .ok (u, s')) (hg : Good s) (hq : q < s.qc.numQubits) : Step B s s' := by
+  unfold expqSet at h
+  simp only [run_bind_ok] at h
+  obtain ⟨u1, s1, h1, h2⟩ := h
+  have st1 : Step B s s1 := expqRemove_ok h1 hg
+  have hg1 := st1.good
+  have hq1 : q < s1.qc.numQubits := Nat.lt_of_lt_of_le hq st1.nq_le
+  have := run_modify_ok.mp h2; subst this
+  refine st1.trans ?_
+  split
+  · refine Step.of_same ⟨hg1.gates_ok, hg1.comp_ok, hg1.qmap_lt, ?_, hg1.anc_lt, hg1.free_lt, hg1.marked_lt,
+      hg1.anc_nodup, hg1.anc_named⟩ rfl rfl rfl
+    intro p hp
+    simp only [List.mem_map] at hp
+    obtain ⟨p0, hp0, rfl⟩ := hp
+    split
+    · exact hq1
+    · exact hg1.expq_lt p0 hp0
+  · refine Step.of_same ⟨hg1.gates_ok, hg1.comp_ok, hg1.qmap_lt, ?_, hg1.anc_lt, hg1.free_lt, hg1.marked_lt,
+      hg1.anc_nodup, hg1.anc_named⟩ rfl rfl rfl
+    intro p hp
+    simp only [List.mem_append, List.mem_singleton] at hp
+    rcases hp with hp | rfl
+    · exact hg1.expq_lt p hp
+    · exact hq1
+
+theorem expqGet?_ok {e : BExp} {r : Option Nat} {s s' : CState}
+    (h : (expqGet? e).run s = .ok (r, s')) (hg : Good s) :
+    s' = s ∧ ∀ q, r = some q → q < s.qc.numQubits := by
+  unfold expqGet? at h
+  simp only [run_bind_ok, run_get_ok, run_pure_ok] at h
+  obtain ⟨s0, s1, ⟨rfl, rfl⟩, rfl, rfl⟩ := h
+  refine ⟨rfl, fun q hq => ?_⟩
+  cases hf : List.find? (fun x => x.fst == e) s'.expq with
+  | none => simp [hf] at hq
+  | some p =>
+    simp only [hf, Option.map_some, Option.some.injEq] at hq
+    subst hq
+    exact hg.expq_lt p (List.mem_of_find?_eq_some hf)
+
+theorem mapQubit_finish {B : String → Prop} {name : String} {index : Nat} {s1 s2 s' : CState} {u : Unit}
+    (hm : (modQC fun qc => { qc with qmap := dictSet qc.qmap name index }).run s2 = .ok (u, s'))
+    (hi : index < s1.qc.numQubits) (hb : B name)
+    (hg2 : Good s2) (hn2 : s2.qc.numQubits = s1.qc.numQubits) (hin2 : s2.inputs = s1.inputs)
+    (hidx : index ∈ s2.qc.anc → scratchName name = true)
+    (hkeep : ∀ x, scratchName x = false → dictGet? s2.qc.qmap x = dictGet? s1.qc.qmap x) :
+    Step B s1 s' ∧ dictGet? s'.qc.qmap name = some index := by
+  have := modQC_run hm; subst this
+  refine ⟨?_, dictGet?_dictSet_self⟩
+  have hi2 : index < s2.qc.numQubits := by rw [hn2]; exact hi
+  refine ⟨⟨hg2.gates_ok, hg2.comp_ok, ?_, hg2.expq_lt, hg2.anc_lt, hg2.free_lt, hg2.marked_lt, hg2.anc_nodup, ?_⟩,
+    Nat.le_of_eq hn2.symm, hin2, ?_, ?_⟩
+  · intro p hp
+    rcases mem_dictSet hp with hp | rfl
+    · exact hg2.qmap_lt p hp
+    · exact hi2
+  · intro p hp ha
+    rcases mem_dictSet hp with hp | rfl
+    · exact hg2.anc_named p hp ha
+    · exact hidx ha
+  · intro x hx hsome
+    show (dictGet? (dictSet _ _ _) _).isSome = true
+    by_cases hxn : x = name
+    · subst hxn; rw [dictGet?_dictSet_self]; rfl
+    · rw [dictGet?_dictSet_ne hxn, hkeep x hx]; exact hsome
+  · intro x hbx hrx
+    have hxn : x ≠ name := by rintro rfl; exact hbx hb
+    have hxs : scratchName x = false := by
+      cases hs : scratchName x
+      · rfl
+      · rw [reserved_of_scratch hs] at hrx; cases hrx
+    show dictGet? (dictSet _ _ _) _ = _
+    rw [dictGet?_dictSet_ne hxn, hkeep x hxs]
+
+theorem mapQubit_ok {B : String → Prop} {name : String} {index : Nat} {promote : Bool} {u : Unit}
+    {s s' : CState} (h : (mapQubit name index promote).run s = .ok (u, s')) (hg : Good s)
+    (hi : index < s.qc.numQubits) (hb : B name) (hp : promote = false → scratchName name = true) :
+    Step B s s' ∧ dictGet? s'.qc.qmap name = some index := by
+  unfold mapQubit at h
+  dsimp only at h
+  obtain ⟨qc, s1, hq, h⟩ := run_bind_ok.mp h
+  obtain ⟨rfl, rfl⟩ := getQC_run hq
+  split at h
+  · next hc =>
+    simp only [Bool.and_eq_true] at hc
+    have hia : index ∈ s1.qc.anc := by simpa using hc.2
+    obtain ⟨u2, s3, hm1, hmatch⟩ := run_bind_ok.mp h
+    have := modQC_run hm1; subst this
+    have hne : index ∉ s1.qc.anc.erase index := by
+      rw [hg.anc_nodup.mem_erase_iff]; simp
+    split at hmatch
+    · next k hk =>
+      obtain ⟨u3, s4, hm2, hm3⟩ := run_bind_ok.mp hmatch
+      have := modQC_run hm2; subst this
+      have hkm := keyByIndex?_mem hk
+      have hks : scratchName k = true := hg.anc_named _ hkm hia
+      refine mapQubit_finish hm3 hi hb ⟨hg.gates_ok, hg.comp_ok,
+        fun p hp => hg.qmap_lt p (List.mem_filter.mp hp).1, hg.expq_lt,
+        fun a ha => hg.anc_lt a (List.mem_of_mem_erase ha), hg.free_lt, hg.marked_lt,
+        hg.anc_nodup.erase _, ?_⟩ rfl rfl (fun h => absurd h hne) ?_
+      · exact fun p hp ha => hg.anc_named p (List.mem_filter.mp hp).1 (List.mem_of_mem_erase ha)
+      · intro x hx
+        exact dictGet?_filter_ne (by rintro rfl; rw [hks] at hx; cases hx)
+    · refine mapQubit_finish hmatch hi hb ⟨hg.gates_ok, hg.comp_ok, hg.qmap_lt, hg.expq_lt,
+        fun a ha => hg.anc_lt a (List.mem_of_mem_erase ha), hg.free_lt, hg.marked_lt,
+        hg.anc_nodup.erase _, ?_⟩ rfl rfl (fun h => absurd h hne) (fun _ _ => rfl)
+      exact fun p hp ha => hg.anc_named p hp (List.mem_of_mem_erase ha)
+  · next hc =>
+    refine mapQubit_finish h hi hb hg rfl rfl ?_ (fun _ _ => rfl)
+    intro hia
+    apply hp
+    cases promote
+    · rfl
+    · exfalso; apply hc; simp [hia]
+
+/-! ### constants, symbols, cache hits -/
+
+theorem run_get_bind_ok {β} {f : CState → M β} {s s' : CState} {b : β} :
+    ((get : M CState) >>= f).run s = .ok (b, s') ↔ (f s).run s = .ok (b, s') := by
+  rw [run_bind_ok]
+  constructor
+  · rintro ⟨a, s1, hg, h⟩
+    obtain ⟨rfl, rfl⟩ := run_get_ok.mp hg
+    exact h
+  · intro h; exact ⟨s, s, run_get_ok.mpr ⟨rfl, rfl⟩, h⟩
+
+theorem cxAll_ok {B : String → Prop} {d : Nat} : ∀ (is : List Nat) {u : Unit} {s s' : CState},
+    (cxAll d is).run s = .ok (u, s') → Good s → d < s.qc.numQubits → (∀ i ∈ is, i < s.qc.numQubits) →
+    Step B s s'
+  | [], u, s, s', h, hg, _, _ => by
+    unfold cxAll at h
+    obtain ⟨_, rfl⟩ := run_pure_ok.mp h; exact Step.refl hg
+  | i :: is, u, s, s', h, hg, hd, hi => by
+    unfold cxAll at h
+    obtain ⟨u1, s1, h1, h2⟩ := run_bind_ok.mp h
+    have st1 : Step B s s1 := cx_ok h1 hg (hi i List.mem_cons_self) hd
+    exact st1.trans (cxAll_ok is h2 st1.good (Nat.lt_of_lt_of_le hd st1.nq_le)
+      (fun j hj => Nat.lt_of_lt_of_le (hi j (List.mem_cons_of_mem _ hj)) st1.nq_le))
+
+theorem xAll_ok {B : String → Prop} : ∀ (is : List Nat) {u : Unit} {s s' : CState},
+    (xAll is).run s = .ok (u, s') → Good s → (∀ i ∈ is, i < s.qc.numQubits) → Step B s s'
+  | [], u, s, s', h, hg, _ => by
+    unfold xAll at h
+    obtain ⟨_, rfl⟩ := run_pure_ok.mp h; exact Step.refl hg
+  | i :: is, u, s, s', h, hg, hi => by
+    unfold xAll at h
+    obtain ⟨u1, s1, h1, h2⟩ := run_bind_ok.mp h
+    have st1 : Step B s s1 := xGate_ok h1 hg (hi i List.mem_cons_self)
+    exact st1.trans (xAll_ok is h2 st1.good
+      (fun j hj => Nat.lt_of_lt_of_le (hi j (List.mem_cons_of_mem _ hj)) st1.nq_le))
+
+theorem constFalse_ok {B : String → Prop} {a : Nat} {s s' : CState}
+    (h : constFalse.run s = .ok (a, s')) (hg : Good s) : Step B s s' ∧ a < s'.qc.numQubits := by
+  unfold constFalse at h
+  obtain ⟨qc, s1, hq, h⟩ := run_bind_ok.mp h
+  obtain ⟨rfl, rfl⟩ := getQC_run hq
+  dsimp only at h
+  split at h
+  · obtain ⟨u, s2, hd, hl⟩ := run_bind_ok.mp h
+    obtain ⟨i, hadd⟩ := run_discard_ok.mp hd
+    have st : Step B s1 s2 := (addQubit_ok hadd hg (Or.inr (by decide))).1
+    obtain ⟨rfl, _, hlt⟩ := lookup_ok hl st.good
+    exact ⟨st, hlt⟩
+  · obtain ⟨rfl, _, hlt⟩ := lookup_ok h hg
+    exact ⟨Step.refl hg, hlt⟩
+
+theorem constTrue_ok {B : String → Prop} {a : Nat} {s s' : CState}
+    (h : constTrue.run s = .ok (a, s')) (hg : Good s) : Step B s s' ∧ a < s'.qc.numQubits := by
+  unfold constTrue at h
+  obtain ⟨qc, s1, hq, h⟩ := run_bind_ok.mp h
+  obtain ⟨rfl, rfl⟩ := getQC_run hq
+  dsimp only at h
+  split at h
+  · obtain ⟨u1, s3, hd, h2⟩ := run_bind_ok.mp h
+    obtain ⟨i, hadd⟩ := run_discard_ok.mp hd
+    have st1 : Step B s1 s3 := (addQubit_ok hadd hg (Or.inr (by decide))).1
+    obtain ⟨q, s4, hl1, h3⟩ := run_bind_ok.mp h2
+    obtain ⟨rfl, _, hlt⟩ := lookup_ok hl1 st1.good
+    obtain ⟨u2, s5, hx, hl⟩ := run_bind_ok.mp h3
+    have st2 : Step B s1 s5 := st1.trans (xGate_ok hx st1.good hlt)
+    obtain ⟨rfl, _, hlt2⟩ := lookup_ok hl st2.good
+    exact ⟨st2, hlt2⟩
+  · obtain ⟨rfl, _, hlt⟩ := lookup_ok h hg
+    exact ⟨Step.refl hg, hlt⟩
+
+theorem compileSymbol_ok {B : String → Prop} {n : String} {sym : Option String} {a : Nat} {s s' : CState}
+    (h : (compileSymbol n sym).run s = .ok (a, s')) (hg : Good s) (hb : ∀ x, sym = some x → B x) :
+    Step B s s' ∧ a < s'.qc.numQubits := by
+  unfold compileSymbol at h
+  dsimp only at h
+  have fin : ∀ {s a s'}, Good s → StateT.run (do
+      let qc ← getQC
+      match dictGet? qc.qmap n with
+        | some i => pure i
+        | none => throw s!"CompilerException: Symbol not found in qc: {n}" : M Nat) s = .ok (a, s') →
+      Step B s s' ∧ a < s'.qc.numQubits := by
+    intro s a s' hg h
+    obtain ⟨qc, s1, hq, h⟩ := run_bind_ok.mp h
+    obtain ⟨rfl, rfl⟩ := getQC_run hq
+    split at h
+    · next i hi =>
+      obtain ⟨rfl, rfl⟩ := run_pure_ok.mp h
+      exact ⟨Step.refl hg, hg.qmap_lt _ (dictGet?_mem hi)⟩
+    · exact (run_throw_ok.mp h).elim
+  split at h
+  · next sy =>
+    have hbs : B sy := hb sy rfl
+    split at h
+    · rw [run_get_bind_ok] at h
+      split at h
+      · obtain ⟨iret, s2, hadd, h2⟩ := run_bind_ok.mp h
+        obtain ⟨st1, _, hlt, _, _⟩ := addQubit_ok (B := B) hadd hg (Or.inl hbs)
+        obtain ⟨q, s3, hl, h3⟩ := run_bind_ok.mp h2
+        obtain ⟨rfl, _, hq⟩ := lookup_ok hl st1.good
+        obtain ⟨u, s4, hcx, hp⟩ := run_bind_ok.mp h3
+        obtain ⟨rfl, rfl⟩ := run_pure_ok.mp hp
+        have st2 : Step B s3 s' := cx_ok hcx st1.good hq hlt
+        exact ⟨st1.trans st2, Nat.lt_of_lt_of_le hlt st2.nq_le⟩
+      · obtain ⟨q, s2, hl, h2⟩ := run_bind_ok.mp h
+        obtain ⟨rfl, _, hq⟩ := lookup_ok hl hg
+        rw [run_get_bind_ok] at h2
+        split at h2
+        · obtain ⟨iret, s3, hadd, h3⟩ := run_bind_ok.mp h2
+          obtain ⟨st1, _, hlt, _, _⟩ := addQubit_ok (B := B) hadd hg (Or.inl hbs)
+          obtain ⟨u, s4, hcx, hp⟩ := run_bind_ok.mp h3
+          obtain ⟨rfl, rfl⟩ := run_pure_ok.mp hp
+          have st2 : Step B s3 s' := cx_ok hcx st1.good (Nat.lt_of_lt_of_le hq st1.nq_le) hlt
+          exact ⟨st1.trans st2, Nat.lt_of_lt_of_le hlt st2.nq_le⟩
+        · obtain ⟨rfl, rfl⟩ := run_pure_ok.mp h2
+          exact ⟨Step.refl hg, hq⟩
+    · exact fin hg h
+  · exact fin hg h
+
+theorem cacheHit_ok {B : String → Prop} {q : Nat} {dest : Option Nat} {a : Nat} {s s' : CState}
+    (h : (cacheHit q dest).run s = .ok (a, s')) (hg : Good s) (hq : q < s.qc.numQubits)
+    (hd : ∀ d, dest = some d → d < s.qc.numQubits) : Step B s s' ∧ a < s'.qc.numQubits := by
+  unfold cacheHit at h
+  obtain ⟨u, s1, hev, h⟩ := run_bind_ok.mp h
+  have st1 : Step B s s1 := event_ok hev hg
+  cases dest with
+  | none =>
+    obtain ⟨rfl, rfl⟩ := run_pure_ok.mp h
+    exact ⟨st1, Nat.lt_of_lt_of_le hq st1.nq_le⟩
+  | some d =>
+    have hd' := hd d rfl
+    dsimp only at h
+    split at h
+    · obtain ⟨u2, s2, hcx, hp⟩ := run_bind_ok.mp h
+      obtain ⟨rfl, rfl⟩ := run_pure_ok.mp hp
+      have st2 : Step B s1 s' := cx_ok hcx st1.good (Nat.lt_of_lt_of_le hq st1.nq_le)
+        (Nat.lt_of_lt_of_le hd' st1.nq_le)
+      exact ⟨st1.trans st2, Nat.lt_of_lt_of_le hd' (st1.trans st2).nq_le⟩
+    · obtain ⟨rfl, rfl⟩ := run_pure_ok.mp h
+      exact ⟨st1, Nat.lt_of_lt_of_le hq st1.nq_le⟩
+
+/-! ### compile_expr: every run keeps the invariant -/
+
+/-- specification of `compileExpr e`: the invariant is kept, the result is a qubit of the circuit -/
+def ExprSpec (B : String → Prop) (e : BExp) : Prop :=
+  ∀ (dest : Option Nat) (sym : Option String) {a : Nat} {s s' : CState},
+    (compileExpr e dest sym).run s = .ok (a, s') → Good s →
+    (∀ d, dest = some d → d < s.qc.numQubits) → (∀ x, sym = some x → B x) →
+    Step B s s' ∧ a < s'.qc.numQubits
+
+def ArgsSpec (B : String → Prop) (as : List BExp) : Prop :=
+  ∀ {rs : List Nat} {s s' : CState}, (compileArgs as).run s = .ok (rs, s') → Good s →
+    Step B s s' ∧ ∀ r ∈ rs, r < s'.qc.numQubits
+
+def XorSpec (B : String → Prop) (as : List BExp) : Prop :=
+  ∀ (d : Nat) {a : Nat} {s s' : CState}, (compileXorArgs as d).run s = .ok (a, s') → Good s →
+    d < s.qc.numQubits → Step B s s' ∧ a < s'.qc.numQubits
+
+theorem exprSpec_ff {B : String → Prop} : ExprSpec B .ff := by
+  intro dest sym a s s' h hg _ _
+  unfold compileExpr at h
+  exact constFalse_ok h hg
+
+theorem exprSpec_tt {B : String → Prop} : ExprSpec B .tt := by
+  intro dest sym a s s' h hg _ _
+  unfold compileExpr at h
+  exact constTrue_ok h hg
+
+theorem exprSpec_sym {B : String → Prop} (n : String) : ExprSpec B (.sym n) := by
+  intro dest sym a s s' h hg _ hb
+  unfold compileExpr at h
+  exact compileSymbol_ok h hg hb
+
+theorem exprSpec_ite {B : String → Prop} (a b c : BExp) : ExprSpec B (.ite a b c) := by
+  intro dest sym a s s' h _ _ _
+  unfold compileExpr at h
+  exact (run_throw_ok.mp h).elim
+
+theorem exprSpec_imp {B : String → Prop} (a b : BExp) : ExprSpec B (.imp a b) := by
+  intro dest sym a s s' h _ _ _
+  unfold compileExpr at h
+  exact (run_throw_ok.mp h).elim
+
+theorem exprSpec_xor {B : String → Prop} {args : List BExp} (ih : XorSpec B args) :
+    ExprSpec B (.xor args) := by
+  intro dest sym a s s' h hg hd hb
+  unfold compileExpr at h
+  dsimp only at h
+  obtain ⟨r, s1, hget, h1⟩ := run_bind_ok.mp h
+  obtain ⟨rfl, hr⟩ := expqGet?_ok hget hg
+  cases r with
+  | some q => exact cacheHit_ok h1 hg (hr q rfl) hd
+  | none =>
+    dsimp only at h1
+    cases dest with
+    | some d =>
+      simp only [Option.isNone_some, Bool.false_eq_true, ↓reduceIte] at h1
+      obtain ⟨d0, s2, hp, h2⟩ := run_bind_ok.mp h1
+      obtain ⟨rfl, rfl⟩ := run_pure_ok.mp hp
+      obtain ⟨d', s3, hx, h3⟩ := run_bind_ok.mp h2
+      obtain ⟨st, hlt⟩ := ih d0 hx hg (hd d0 rfl)
+      obtain ⟨rfl, rfl⟩ := run_pure_ok.mp h3
+      exact ⟨st, hlt⟩
+    | none =>
+      simp only [Option.isNone_none, ↓reduceIte] at h1
+      obtain ⟨d, s2, hf, h2⟩ := run_bind_ok.mp h1
+      obtain ⟨st1, hdlt⟩ := getFreeAncilla_ok (B := B) hf hg
+      obtain ⟨d', s3, hx, h3⟩ := run_bind_ok.mp h2
+      obtain ⟨st2, hlt⟩ := ih d hx st1.good hdlt
+      obtain ⟨u, s4, hset, h4⟩ := run_bind_ok.mp h3
+      have st3 := expqSet_ok (B := B) hset st2.good hlt
+      obtain ⟨rfl, rfl⟩ := run_pure_ok.mp h4
+      exact ⟨(st1.trans st2).trans st3, Nat.lt_of_lt_of_le hlt st3.nq_le⟩
+
+
+theorem run_ite_ok {α} {c : Prop} [Decidable c] {m1 m2 : M α} {s : CState} {r : α × CState} :
+    (if c then m1 else m2).run s = .ok r ↔ (c ∧ m1.run s = .ok r) ∨ (¬ c ∧ m2.run s = .ok r) := by
+  by_cases hc : c <;> simp [hc]
+
+theorem exprSpec_not {B : String → Prop} {x : BExp} (ih : ExprSpec B x) : ExprSpec B (.not x) := by
+  intro dest sym a s s' h hg hd hb
+  unfold compileExpr at h
+  dsimp only at h
+  obtain ⟨r, s1, hget, h1⟩ := run_bind_ok.mp h
+  obtain ⟨rfl, hr⟩ := expqGet?_ok hget hg
+  cases r with
+  | some q => exact cacheHit_ok h1 hg (hr q rfl) hd
+  | none =>
+    dsimp only at h1
+    rcases run_ite_ok.mp h1 with ⟨_, h1⟩ | ⟨_, h1⟩
+    · -- `x = ~x` with `x` the symbol being defined
+      cases sym with
+      | none => exact (run_throw_ok.mp h1).elim
+      | some sy =>
+        dsimp only at h1
+        obtain ⟨iret, s2, hl, h2⟩ := run_bind_ok.mp h1
+        obtain ⟨rfl, _, hlt⟩ := lookup_ok hl hg
+        obtain ⟨u, s3, hx, h3⟩ := run_bind_ok.mp h2
+        have st : Step B s2 s3 := xGate_ok hx hg hlt
+        obtain ⟨rfl, rfl⟩ := run_pure_ok.mp h3
+        exact ⟨st, Nat.lt_of_lt_of_le hlt st.nq_le⟩
+    · obtain ⟨eret, s2, he, h2⟩ := run_bind_ok.mp h1
+      obtain ⟨st1, helt⟩ := ih none none he hg (by intro d hd0; cases hd0) (by intro y hy; cases hy)
+      obtain ⟨qc, s3, hq, h3⟩ := run_bind_ok.mp h2
+      obtain ⟨rfl, rfl⟩ := getQC_run hq
+      split at h3
+      · obtain ⟨u1, s4, hev, h4⟩ := run_bind_ok.mp h3
+        have st2 : Step B s3 s4 := event_ok hev st1.good
+        obtain ⟨u2, s5, hx, h5⟩ := run_bind_ok.mp h4
+        have st3 : Step B s4 s5 := xGate_ok hx st2.good (Nat.lt_of_lt_of_le helt st2.nq_le)
+        obtain ⟨u3, s6, hset, h6⟩ := run_bind_ok.mp h5
+        have helt5 : eret < s5.qc.numQubits := Nat.lt_of_lt_of_le helt (st2.trans st3).nq_le
+        have st4 : Step B s5 s6 := expqSet_ok hset st3.good helt5
+        obtain ⟨rfl, rfl⟩ := run_pure_ok.mp h6
+        exact ⟨((st1.trans st2).trans st3).trans st4, Nat.lt_of_lt_of_le helt5 st4.nq_le⟩
+      · -- copy into `d`, negate, mark the argument
+        have body : ∀ {d : Nat} {s4 s5 : CState} {a : Nat}, Step B s1 s4 → d < s4.qc.numQubits →
+            eret < s4.qc.numQubits →
+            StateT.run (do
+              cx eret d
+              xGate d
+              markAncilla eret
+              if dest.isNone = true then do
+                  expqSet x.not d
+                  pure d
+                else pure d : M Nat) s4 = .ok (a, s5) →
+            Step B s1 s5 ∧ a < s5.qc.numQubits := by
+          intro d s4 s5 a st hdlt hel hrun
+          obtain ⟨u1, t1, hcx, k1⟩ := run_bind_ok.mp hrun
+          have q1 : Step B s4 t1 := cx_ok hcx st.good hel hdlt
+          obtain ⟨u2, t2, hx, k2⟩ := run_bind_ok.mp k1
+          have q2 : Step B t1 t2 := xGate_ok hx q1.good (Nat.lt_of_lt_of_le hdlt q1.nq_le)
+          obtain ⟨u3, t3, hmk, k3⟩ := run_bind_ok.mp k2
+          have q3 : Step B t2 t3 := markAncilla_ok hmk q2.good
+          have q123 := (q1.trans q2).trans q3
+          have hd3 : d < t3.qc.numQubits := Nat.lt_of_lt_of_le hdlt q123.nq_le
+          split at k3
+          · obtain ⟨u4, t4, hset, k4⟩ := run_bind_ok.mp k3
+            have q4 : Step B t3 t4 := expqSet_ok hset q3.good hd3
+            obtain ⟨rfl, rfl⟩ := run_pure_ok.mp k4
+            exact ⟨(st.trans q123).trans q4, Nat.lt_of_lt_of_le hd3 q4.nq_le⟩
+          · obtain ⟨rfl, rfl⟩ := run_pure_ok.mp k3
+            exact ⟨st.trans q123, hd3⟩
+        cases dest with
+        | some d =>
+          dsimp only at h3
+          obtain ⟨d0, s4, hp, h4⟩ := run_bind_ok.mp h3
+          obtain ⟨rfl, rfl⟩ := run_pure_ok.mp hp
+          exact body st1 (Nat.lt_of_lt_of_le (hd d0 rfl) st1.nq_le) helt h4
+        | none =>
+          dsimp only at h3
+          obtain ⟨d, s4, hf, h4⟩ := run_bind_ok.mp h3
+          obtain ⟨st2, hdlt⟩ := getFreeAncilla_ok (B := B) hf st1.good
+          exact body (st1.trans st2) hdlt (Nat.lt_of_lt_of_le helt st2.nq_le) h4
+
+
+theorem mem_es {l : List Nat} {c : Bool} {d x : Nat}
+    (h : x ∈ sortNat (if c = true then l.erase d else l).eraseDups) : x ∈ l := by
+  unfold sortNat at h
+  rw [List.mem_mergeSort] at h
+  have h := List.mem_eraseDups.mp h
+  split at h
+  · exact List.mem_of_mem_erase h
+  · exact h
+
+/-- the common tail of `compile_and` / `compile_or`: mark the arguments, cache, return -/
+theorem finish_ok {B : String → Prop} {es : List Nat} {dest : Option Nat} {e : BExp} {d a : Nat}
+    {s s' : CState}
+    (h : StateT.run (do
+          markAll es
+          if dest.isNone = true then do
+              expqSet e d
+              pure d
+            else pure d : M Nat) s = .ok (a, s'))
+    (hg : Good s) (hd : d < s.qc.numQubits) : Step B s s' ∧ a < s'.qc.numQubits := by
+  obtain ⟨u1, s1, hm, h1⟩ := run_bind_ok.mp h
+  have st1 : Step B s s1 := markAll_ok es hm hg
+  have hd1 : d < s1.qc.numQubits := Nat.lt_of_lt_of_le hd st1.nq_le
+  split at h1
+  · obtain ⟨u2, s2, hset, h2⟩ := run_bind_ok.mp h1
+    have st2 : Step B s1 s2 := expqSet_ok hset st1.good hd1
+    obtain ⟨rfl, rfl⟩ := run_pure_ok.mp h2
+    exact ⟨st1.trans st2, Nat.lt_of_lt_of_le hd1 st2.nq_le⟩
+  · obtain ⟨rfl, rfl⟩ := run_pure_ok.mp h1
+    exact ⟨st1, hd1⟩
+
+theorem exprSpec_and {B : String → Prop} {args : List BExp} (ih : ArgsSpec B args) :
+    ExprSpec B (.and args) := by
+  intro dest sym a s s' h hg hd hb
+  unfold compileExpr at h
+  dsimp only at h
+  obtain ⟨r, s1, hget, h1⟩ := run_bind_ok.mp h
+  obtain ⟨rfl, hr⟩ := expqGet?_ok hget hg
+  cases r with
+  | some q => exact cacheHit_ok h1 hg (hr q rfl) hd
+  | none =>
+    dsimp only at h1
+    obtain ⟨erets, s2, hargs, h2⟩ := run_bind_ok.mp h1
+    obtain ⟨st1, hel⟩ := ih hargs hg
+    have body : ∀ {d : Nat} {s4 s5 : CState} {a : Nat}, Step B s1 s4 → d < s4.qc.numQubits →
+        (∀ r ∈ erets, r < s4.qc.numQubits) →
+        StateT.run (
+          if erets.contains d = true then do
+            event "destAmongArgs"
+            mcx (sortNat (if erets.contains d = true then erets.erase d else erets).eraseDups) d
+            markAll (sortNat (if erets.contains d = true then erets.erase d else erets).eraseDups)
+            if dest.isNone = true then do
+                expqSet (BExp.and args) d
+                pure d
+              else pure d
+          else do
+            mcx (sortNat (if erets.contains d = true then erets.erase d else erets).eraseDups) d
+            markAll (sortNat (if erets.contains d = true then erets.erase d else erets).eraseDups)
+            if dest.isNone = true then do
+                expqSet (BExp.and args) d
+                pure d
+              else pure d : M Nat) s4 = .ok (a, s5) →
+        Step B s1 s5 ∧ a < s5.qc.numQubits := by
+      intro d s4 s5 a st hdlt hel hrun
+      have tail : ∀ {t0 : CState}, Step B s1 t0 → StateT.run (do
+            mcx (sortNat (if erets.contains d = true then erets.erase d else erets).eraseDups) d
+            markAll (sortNat (if erets.contains d = true then erets.erase d else erets).eraseDups)
+            if dest.isNone = true then do
+                expqSet (BExp.and args) d
+                pure d
+              else pure d : M Nat) t0 = .ok (a, s5) → s4.qc.numQubits ≤ t0.qc.numQubits →
+            Step B s1 s5 ∧ a < s5.qc.numQubits := by
+        intro t0 st0 hr0 hle
+        obtain ⟨u1, t1, hmcx, k1⟩ := run_bind_ok.mp hr0
+        have q1 : Step B t0 t1 := mcx_ok hmcx st0.good
+          (fun c hc => Nat.lt_of_lt_of_le (hel c (mem_es hc)) hle) (Nat.lt_of_lt_of_le hdlt hle)
+        obtain ⟨q2, ha⟩ := finish_ok (B := B) k1 q1.good
+          (Nat.lt_of_lt_of_le hdlt (Nat.le_trans hle q1.nq_le))
+        exact ⟨(st0.trans q1).trans q2, ha⟩
+      rcases run_ite_ok.mp hrun with ⟨_, hrun⟩ | ⟨_, hrun⟩
+      · obtain ⟨u0, t0, hev, k0⟩ := run_bind_ok.mp hrun
+        have q0 : Step B s4 t0 := event_ok hev st.good
+        exact tail (st.trans q0) k0 q0.nq_le
+      · exact tail st hrun (Nat.le_refl _)
+    cases dest with
+    | some d =>
+      dsimp only at h2
+      obtain ⟨d0, s4, hp, h4⟩ := run_bind_ok.mp h2
+      obtain ⟨rfl, rfl⟩ := run_pure_ok.mp hp
+      exact body st1 (Nat.lt_of_lt_of_le (hd d0 rfl) st1.nq_le) hel h4
+    | none =>
+      dsimp only at h2
+      obtain ⟨d, s4, hf, h4⟩ := run_bind_ok.mp h2
+      obtain ⟨st2, hdlt⟩ := getFreeAncilla_ok (B := B) hf st1.good
+      exact body (st1.trans st2) hdlt (fun r hr => Nat.lt_of_lt_of_le (hel r hr) st2.nq_le) h4
+
+
+theorem orTail_ok {B : String → Prop} {es : List Nat} {dest : Option Nat} {e : BExp} {d a : Nat}
+    {s s' : CState}
+    (h : StateT.run (
+        if es.length ≤ 2 then do
+          cxAll d es
+          if (es.length == 2) = true then do
+              mcx es d
+              markAll es
+              if dest.isNone = true then do
+                  expqSet e d
+                  pure d
+                else pure d
+            else do
+              markAll es
+              if dest.isNone = true then do
+                  expqSet e d
+                  pure d
+                else pure d
+        else do
+          xAll es
+          mcx es d
+          xAll es
+          xGate d
+          markAll es
+          if dest.isNone = true then do
+              expqSet e d
+              pure d
+            else pure d : M Nat) s = .ok (a, s'))
+    (hg : Good s) (hd : d < s.qc.numQubits) (hes : ∀ x ∈ es, x < s.qc.numQubits) :
+    Step B s s' ∧ a < s'.qc.numQubits := by
+  rcases run_ite_ok.mp h with ⟨_, h⟩ | ⟨_, h⟩
+  · obtain ⟨u1, s1, hcx, h1⟩ := run_bind_ok.mp h
+    have q1 : Step B s s1 := cxAll_ok es hcx hg hd hes
+    have hd1 := Nat.lt_of_lt_of_le hd q1.nq_le
+    rcases run_ite_ok.mp h1 with ⟨_, h1⟩ | ⟨_, h1⟩
+    · obtain ⟨u2, s2, hm, h2⟩ := run_bind_ok.mp h1
+      have q2 : Step B s1 s2 := mcx_ok hm q1.good (fun c hc => Nat.lt_of_lt_of_le (hes c hc) q1.nq_le) hd1
+      obtain ⟨q3, ha⟩ := finish_ok (B := B) h2 q2.good (Nat.lt_of_lt_of_le hd1 q2.nq_le)
+      exact ⟨(q1.trans q2).trans q3, ha⟩
+    · obtain ⟨q3, ha⟩ := finish_ok (B := B) h1 q1.good hd1
+      exact ⟨q1.trans q3, ha⟩
+  · obtain ⟨u1, s1, hx1, h1⟩ := run_bind_ok.mp h
+    have q1 : Step B s s1 := xAll_ok es hx1 hg hes
+    have hes1 : ∀ x ∈ es, x < s1.qc.numQubits := fun c hc => Nat.lt_of_lt_of_le (hes c hc) q1.nq_le
+    have hd1 := Nat.lt_of_lt_of_le hd q1.nq_le
+    obtain ⟨u2, s2, hm, h2⟩ := run_bind_ok.mp h1
+    have q2 : Step B s1 s2 := mcx_ok hm q1.good hes1 hd1
+    have hes2 : ∀ x ∈ es, x < s2.qc.numQubits := fun c hc => Nat.lt_of_lt_of_le (hes1 c hc) q2.nq_le
+    have hd2 := Nat.lt_of_lt_of_le hd1 q2.nq_le
+    obtain ⟨u3, s3, hx2, h3⟩ := run_bind_ok.mp h2
+    have q3 : Step B s2 s3 := xAll_ok es hx2 q2.good hes2
+    have hd3 := Nat.lt_of_lt_of_le hd2 q3.nq_le
+    obtain ⟨u4, s4, hx3, h4⟩ := run_bind_ok.mp h3
+    have q4 : Step B s3 s4 := xGate_ok hx3 q3.good hd3
+    have hd4 := Nat.lt_of_lt_of_le hd3 q4.nq_le
+    obtain ⟨q5, ha⟩ := finish_ok (B := B) h4 q4.good hd4
+    exact ⟨(((q1.trans q2).trans q3).trans q4).trans q5, ha⟩
+
+/-- `if erets.contains d then event "destAmongArgs"` in front of a continuation -/
+theorem destEvent_ok {B : String → Prop} {c : Bool} {k : M Nat} {a : Nat} {s s' : CState}
+    {P : CState → Prop} (hP : ∀ {t t'}, P t → Step B t t' → P t')
+    (hk : ∀ {t : CState}, k.run t = .ok (a, s') → Good t → P t → Step B t s' ∧ a < s'.qc.numQubits)
+    (h : StateT.run (if c = true then do event "destAmongArgs"; k else k) s = .ok (a, s'))
+    (hg : Good s) (hp : P s) : Step B s s' ∧ a < s'.qc.numQubits := by
+  rcases run_ite_ok.mp h with ⟨_, h⟩ | ⟨_, h⟩
+  · obtain ⟨u0, t0, hev, k0⟩ := run_bind_ok.mp h
+    have q0 : Step B s t0 := event_ok hev hg
+    obtain ⟨q1, ha⟩ := hk k0 q0.good (hP hp q0)
+    exact ⟨q0.trans q1, ha⟩
+  · exact hk h hg hp
+
+theorem exprSpec_or {B : String → Prop} {args : List BExp} (ih : ArgsSpec B args) :
+    ExprSpec B (.or args) := by
+  intro dest sym a s s' h hg hd hb
+  unfold compileExpr at h
+  dsimp only at h
+  obtain ⟨r, s1, hget, h1⟩ := run_bind_ok.mp h
+  obtain ⟨rfl, hr⟩ := expqGet?_ok hget hg
+  cases r with
+  | some q => exact cacheHit_ok h1 hg (hr q rfl) hd
+  | none =>
+    dsimp only at h1
+    obtain ⟨erets, s2, hargs, h2⟩ := run_bind_ok.mp h1
+    obtain ⟨st1, hel⟩ := ih hargs hg
+    have body : ∀ {d : Nat} {s4 : CState} {k : M Nat}, d < s4.qc.numQubits → Good s4 →
+        (∀ r ∈ erets, r < s4.qc.numQubits) →
+        StateT.run (if erets.contains d = true then do event "destAmongArgs"; k else k) s4 = .ok (a, s') →
+        (∀ {t : CState}, k.run t = .ok (a, s') → Good t →
+          (d < t.qc.numQubits ∧ ∀ r ∈ erets, r < t.qc.numQubits) → Step B t s' ∧ a < s'.qc.numQubits) →
+        Step B s4 s' ∧ a < s'.qc.numQubits := by
+      intro d s4 k hdlt hg4 hel4 hrun hk
+      exact destEvent_ok (P := fun t => d < t.qc.numQubits ∧ ∀ r ∈ erets, r < t.qc.numQubits)
+        (fun hp st => ⟨Nat.lt_of_lt_of_le hp.1 st.nq_le, fun r hr => Nat.lt_of_lt_of_le (hp.2 r hr) st.nq_le⟩)
+        hk hrun hg4 ⟨hdlt, hel4⟩
+    cases dest with
+    | some d =>
+      dsimp only at h2
+      obtain ⟨d0, s4, hp, h4⟩ := run_bind_ok.mp h2
+      obtain ⟨rfl, rfl⟩ := run_pure_ok.mp hp
+      obtain ⟨st2, ha⟩ := body (Nat.lt_of_lt_of_le (hd d0 rfl) st1.nq_le) st1.good hel h4
+        (fun hk hgt hp => orTail_ok hk hgt hp.1 (fun x hx => hp.2 x (mem_es hx)))
+      exact ⟨st1.trans st2, ha⟩
+    | none =>
+      dsimp only at h2
+      obtain ⟨d, s4, hf, h4⟩ := run_bind_ok.mp h2
+      obtain ⟨st2, hdlt⟩ := getFreeAncilla_ok (B := B) hf st1.good
+      obtain ⟨st3, ha⟩ := body hdlt st2.good (fun r hr => Nat.lt_of_lt_of_le (hel r hr) st2.nq_le) h4
+        (fun hk hgt hp => orTail_ok hk hgt hp.1 (fun x hx => hp.2 x (mem_es hx)))
+      exact ⟨(st1.trans st2).trans st3, ha⟩
+
+
+theorem argsSpec_nil {B : String → Prop} : ArgsSpec B [] := by
+  intro rs s s' h hg
+  unfold compileArgs at h
+  obtain ⟨rfl, rfl⟩ := run_pure_ok.mp h
+  exact ⟨Step.refl hg, by simp⟩
+
+theorem argsSpec_cons {B : String → Prop} {a : BExp} {as : List BExp} (iha : ExprSpec B a)
+    (ihs : ArgsSpec B as) : ArgsSpec B (a :: as) := by
+  intro rs s s' h hg
+  unfold compileArgs at h
+  obtain ⟨r, s1, h1, h2⟩ := run_bind_ok.mp h
+  obtain ⟨st1, hr⟩ := iha none none h1 hg (by intro d hd; cases hd) (by intro x hx; cases hx)
+  obtain ⟨rs', s2, h3, h4⟩ := run_bind_ok.mp h2
+  obtain ⟨st2, hrs⟩ := ihs h3 st1.good
+  obtain ⟨rfl, rfl⟩ := run_pure_ok.mp h4
+  refine ⟨st1.trans st2, ?_⟩
+  intro x hx
+  simp only [List.mem_cons] at hx
+  rcases hx with rfl | hx
+  · exact Nat.lt_of_lt_of_le hr st2.nq_le
+  · exact hrs x hx
+
+theorem xorSpec_nil {B : String → Prop} : XorSpec B [] := by
+  intro d a s s' h hg hd
+  unfold compileXorArgs at h
+  obtain ⟨rfl, rfl⟩ := run_pure_ok.mp h
+  exact ⟨Step.refl hg, hd⟩
+
+/-- the generic branch of the `compile_xor` loop: accumulate `a` into `d` -/
+theorem xorStep_ok {B : String → Prop} {a : BExp} {as : List BExp} {d r : Nat} {s s' : CState}
+    (iha : ExprSpec B a) (ihs : XorSpec B as)
+    (h : StateT.run (do
+          let d' ← compileExpr a (some d) none
+          if d' != d then event "xorRepl"
+          compileXorArgs as d' : M Nat) s = .ok (r, s'))
+    (hg : Good s) (hd : d < s.qc.numQubits) : Step B s s' ∧ r < s'.qc.numQubits := by
+  obtain ⟨d', s1, h1, h2⟩ := run_bind_ok.mp h
+  obtain ⟨st1, hd'⟩ := iha (some d) none h1 hg (by intro d0 h0; cases h0; exact hd) (by intro x hx; cases hx)
+  dsimp only at h2
+  rcases run_ite_ok.mp h2 with ⟨_, h2⟩ | ⟨_, h2⟩
+  · obtain ⟨u, s2, hev, h3⟩ := run_bind_ok.mp h2
+    have st2 : Step B s1 s2 := event_ok hev st1.good
+    obtain ⟨st3, hr⟩ := ihs d' h3 st2.good (Nat.lt_of_lt_of_le hd' st2.nq_le)
+    exact ⟨(st1.trans st2).trans st3, hr⟩
+  · obtain ⟨st3, hr⟩ := ihs d' h2 st1.good hd'
+    exact ⟨st1.trans st3, hr⟩
+
+theorem xorNotStep_ok {B : String → Prop} {inner : BExp} {as : List BExp} {d r : Nat} {s s' : CState}
+    (iha : ExprSpec B inner) (ihs : XorSpec B as)
+    (h : StateT.run (do
+          let d' ← compileExpr inner (some d) none
+          if d' != d then event "xorRepl"
+          xGate d'
+          compileXorArgs as d' : M Nat) s = .ok (r, s'))
+    (hg : Good s) (hd : d < s.qc.numQubits) : Step B s s' ∧ r < s'.qc.numQubits := by
+  obtain ⟨d', s1, h1, h2⟩ := run_bind_ok.mp h
+  obtain ⟨st1, hd'⟩ := iha (some d) none h1 hg (by intro d0 h0; cases h0; exact hd) (by intro x hx; cases hx)
+  have fin : ∀ {s2 : CState}, Step B s s2 → StateT.run (do xGate d'; compileXorArgs as d' : M Nat) s2 = .ok (r, s') →
+      d' < s2.qc.numQubits → Step B s s' ∧ r < s'.qc.numQubits := by
+    intro s2 st2 h3 hd2
+    obtain ⟨u2, s3, hx, h4⟩ := run_bind_ok.mp h3
+    have st3 : Step B s2 s3 := xGate_ok hx st2.good hd2
+    obtain ⟨st4, hr⟩ := ihs d' h4 st3.good (Nat.lt_of_lt_of_le hd2 st3.nq_le)
+    exact ⟨(st2.trans st3).trans st4, hr⟩
+  dsimp only at h2
+  rcases run_ite_ok.mp h2 with ⟨_, h2⟩ | ⟨_, h2⟩
+  · obtain ⟨u, s2, hev, h3⟩ := run_bind_ok.mp h2
+    have st2 : Step B s1 s2 := event_ok hev st1.good
+    exact fin (st1.trans st2) h3 (Nat.lt_of_lt_of_le hd' st2.nq_le)
+  · exact fin st1 h2 hd'
+
+/-- the argument below a `Not` (the argument itself otherwise) -/
+def stripNot : BExp → BExp
+  | .not i => i
+  | a => a
+
+theorem xorSpec_cons {B : String → Prop} {a : BExp} {as : List BExp} (iha : ExprSpec B a)
+    (ihi : ExprSpec B (stripNot a)) (ihs : XorSpec B as) : XorSpec B (a :: as) := by
+  intro d r s s' h hg hd
+  cases a with
+  | sym n =>
+    unfold compileXorArgs at h
+    obtain ⟨q, s1, hl, h1⟩ := run_bind_ok.mp h
+    obtain ⟨rfl, _, hq⟩ := lookup_ok hl hg
+    rcases run_ite_ok.mp h1 with ⟨_, h1⟩ | ⟨_, h1⟩
+    · exact ihs d h1 hg hd
+    · obtain ⟨u, s2, hcx, h2⟩ := run_bind_ok.mp h1
+      have st1 : Step B s1 s2 := cx_ok hcx hg hq hd
+      obtain ⟨st2, hr⟩ := ihs d h2 st1.good (Nat.lt_of_lt_of_le hd st1.nq_le)
+      exact ⟨st1.trans st2, hr⟩
+  | not inner =>
+    cases inner with
+    | sym n =>
+      unfold compileXorArgs at h
+      exact xorStep_ok iha ihs h hg hd
+    | ff => unfold compileXorArgs at h; exact xorNotStep_ok ihi ihs h hg hd
+    | tt => unfold compileXorArgs at h; exact xorNotStep_ok ihi ihs h hg hd
+    | xor l => unfold compileXorArgs at h; exact xorNotStep_ok ihi ihs h hg hd
+    | not l => unfold compileXorArgs at h; exact xorNotStep_ok ihi ihs h hg hd
+    | and l => unfold compileXorArgs at h; exact xorNotStep_ok ihi ihs h hg hd
+    | or l => unfold compileXorArgs at h; exact xorNotStep_ok ihi ihs h hg hd
+    | ite x y z => unfold compileXorArgs at h; exact xorNotStep_ok ihi ihs h hg hd
+    | imp x y => unfold compileXorArgs at h; exact xorNotStep_ok ihi ihs h hg hd
+  | ff => unfold compileXorArgs at h; exact xorStep_ok iha ihs h hg hd
+  | tt => unfold compileXorArgs at h; exact xorStep_ok iha ihs h hg hd
+  | xor l => unfold compileXorArgs at h; exact xorStep_ok iha ihs h hg hd
+  | and l => unfold compileXorArgs at h; exact xorStep_ok iha ihs h hg hd
+  | or l => unfold compileXorArgs at h; exact xorStep_ok iha ihs h hg hd
+  | ite x y z => unfold compileXorArgs at h; exact xorStep_ok iha ihs h hg hd
+  | imp x y => unfold compileXorArgs at h; exact xorStep_ok iha ihs h hg hd
+
+mutual
+/-- **every run of `compileExpr`** keeps the invariant and returns a qubit of the circuit -/
+theorem exprSpec {B : String → Prop} : ∀ e : BExp, ExprSpec B e
+  | .ff => exprSpec_ff
+  | .tt => exprSpec_tt
+  | .sym n => exprSpec_sym n
+  | .xor args => exprSpec_xor (xorSpec args)
+  | .not a => exprSpec_not (exprSpec a)
+  | .and args => exprSpec_and (argsSpec args)
+  | .or args => exprSpec_or (argsSpec args)
+  | .ite a b c => exprSpec_ite a b c
+  | .imp a b => exprSpec_imp a b
+theorem argsSpec {B : String → Prop} : ∀ as : List BExp, ArgsSpec B as
+  | [] => argsSpec_nil
+  | a :: as => argsSpec_cons (exprSpec a) (argsSpec as)
+theorem xorSpec {B : String → Prop} : ∀ as : List BExp, XorSpec B as
+  | [] => xorSpec_nil
+  | .not i :: as => xorSpec_cons (exprSpec (.not i)) (exprSpec i) (xorSpec as)
+  | .ff :: as => xorSpec_cons (exprSpec .ff) (exprSpec .ff) (xorSpec as)
+  | .tt :: as => xorSpec_cons (exprSpec .tt) (exprSpec .tt) (xorSpec as)
+  | .sym n :: as => xorSpec_cons (exprSpec (.sym n)) (exprSpec (.sym n)) (xorSpec as)
+  | .xor l :: as => xorSpec_cons (exprSpec (.xor l)) (exprSpec (.xor l)) (xorSpec as)
+  | .and l :: as => xorSpec_cons (exprSpec (.and l)) (exprSpec (.and l)) (xorSpec as)
+  | .or l :: as => xorSpec_cons (exprSpec (.or l)) (exprSpec (.or l)) (xorSpec as)
+  | .ite x y z :: as => xorSpec_cons (exprSpec (.ite x y z)) (exprSpec (.ite x y z)) (xorSpec as)
+  | .imp x y :: as => xorSpec_cons (exprSpec (.imp x y)) (exprSpec (.imp x y)) (xorSpec as)
+end
+
 end QV.Compiler
